@@ -223,11 +223,14 @@ def explore(prop, pid, batches, seconds, seed, nproc=None):
     kept = []; sampled = []; gen = 0; nmut = 0
     per_gen = nproc * int(cfg.get('per_worker', 24))
     maxkeep = int(cfg.get('max_keep', 120))
-    while time.time() - t0 < seconds and len(kept) < maxkeep:
+    # the budget is a NUMBER OF MUTANTS (500 per second asked for), so that a run is reproducible from seed and tree whatever
+    # the load of the machine; wall time only serves as a safety net
+    budget = int(cfg.get('budget_per_s', 500) * seconds)
+    while nmut < budget and time.time() - t0 < 6 * seconds + 30 and len(kept) < maxkeep:
         gen += 1; items = []
         weights = [c[3] for c in corpus]
         tries = 0
-        while len(items) < per_gen and tries < per_gen * 4:
+        while len(items) < per_gen and nmut < budget and tries < per_gen * 4:
             tries += 1
             n, l, m, w = rng.choices(corpus, weights)[0]
             donors = [rng.choice(corpus)[1]]
@@ -249,7 +252,7 @@ def explore(prop, pid, batches, seconds, seed, nproc=None):
                 glob |= new; kept.append((n, l, m)); corpus.append((n, l, m, 3.0 + len(new)))
             elif len(sampled) < int(cfg.get('sample', 60)) and rng.random() < 0.02:
                 sampled.append((n, l, m))
-    info.update(generations=gen, mutants=nmut, kept_new_coverage=len(kept), sampled=len(sampled), edges=len(glob),
+    info.update(generations=gen, mutants=nmut, budget=budget, kept_new_coverage=len(kept), sampled=len(sampled), edges=len(glob),
                 dictionary=len(mut.dict), wall=round(time.time() - t0, 1))
     shutil.rmtree(work, ignore_errors=True)
     out = {}
